@@ -279,47 +279,65 @@ func ZZ_C09_ProtoPortText() {
 // port is the outbound of the first rule that matches by the documented
 // semantics - no rule is dropped or reordered by compilation.
 //
-//verif:harness kind=api unwind=64 bound=rules=2(quick)/3(thorough),3-address-forms,5-proto-port-forms,3-hosts,port:any
+//verif:harness kind=api unwind=64 bound=rules=2,6-address-forms(incl.-CIDR-and-/0),3(quick)/5(thorough)-proto-port-forms,5-host-kinds(names,IPv4-only,IPv6-only),port:any
 func ZZ_C09_RuleListFromText() {
 	n := 2
+	addrs := []string{"all", "suffix:a.example", "b.example", "10.0.0.0/8", "0.0.0.0/0", "::/0"}
+	pps := []string{"", "*/53", "*/100-200", "tcp", "udp/53"}
+	npp := 3 // quick: the first three forms
 	if verifThorough() {
-		n = 3
+		npp = len(pps)
 	}
-	addrs := []string{"all", "suffix:a.example", "b.example"}
-	pps := []string{"", "tcp", "udp/53", "*/53", "*/100-200"}
 	obs := map[string]int{"o1": 1, "o2": 2, "o3": 3}
 	var rules []TextRule
 	ak, pk := make([]int, n), make([]int, n)
 	for i := 0; i < n; i++ {
-		ak[i], pk[i] = verifChoice("address", len(addrs)), verifChoice("protoPort", len(pps))
+		ak[i], pk[i] = verifChoice("address", len(addrs)), verifChoice("protoPort", npp)
 		rules = append(rules, TextRule{Outbound: []string{"o1", "o2", "o3"}[i], Address: addrs[ak[i]], ProtoPort: pps[pk[i]]})
 	}
 	rs, err := Compile(rules, obs, 4, nil)
 	verifAssert(err == nil, "the rule list compiles")
-	host := []string{"x.a.example", "b.example", "c.other"}[verifChoice("host", 3)]
+	hk := verifChoice("host", 5)
+	host := []string{"x.a.example", "b.example", "c.other", "v4.only", "v6.only"}[hk]
+	hi := HostInfo{Name: host}
+	has4, has6, in10 := false, false, false
+	switch hk {
+	case 3: // resolved to an IPv4 address only (inside 10/8 or not)
+		in10 = verifBool("in10")
+		if in10 {
+			hi.IPv4 = net.IPv4(10, 1, 2, 3)
+		} else {
+			hi.IPv4 = net.IPv4(192, 0, 2, 1)
+		}
+		has4 = true
+	case 4: // resolved to an IPv6 address only
+		hi.IPv6 = net.ParseIP("2001:db8::7")
+		has6 = true
+	}
 	proto := Protocol(verifInt("proto", 1, 2))
 	port := verifUint16("port")
 	want := 0
 	for i := 0; i < n && want == 0; i++ {
-		addrOK := ak[i] == 0 || (ak[i] == 1 && host == "x.a.example") || (ak[i] == 2 && host == "b.example")
+		addrOK := ak[i] == 0 || (ak[i] == 1 && host == "x.a.example") || (ak[i] == 2 && host == "b.example") ||
+			(ak[i] == 3 && has4 && in10) || (ak[i] == 4 && has4) || (ak[i] == 5 && has6)
 		ppOK := false
 		switch pk[i] {
 		case 0:
 			ppOK = true
 		case 1:
-			ppOK = proto == ProtocolTCP
-		case 2:
-			ppOK = proto == ProtocolUDP && port == 53
-		case 3:
 			ppOK = port == 53
-		case 4:
+		case 2:
 			ppOK = port >= 100 && port <= 200
+		case 3:
+			ppOK = proto == ProtocolTCP
+		case 4:
+			ppOK = proto == ProtocolUDP && port == 53
 		}
 		if addrOK && ppOK {
 			want = i + 1
 		}
 	}
-	ob, _ := rs.Match(HostInfo{Name: host}, proto, port)
+	ob, _ := rs.Match(hi, proto, port)
 	verifAssert(ob == want, "the first matching rule of the list answers (default when none)")
 	verifCover("answered")
 }
